@@ -82,6 +82,13 @@ class Compiler:
             from . import closures
 
             closures.CURRENT = self.rt
+            if node.get("ckind"):
+                # sibling callables that differ in something other than a closure cell: two lambdas on one source line,
+                # bound methods of two instances, exec-built functions differing in a global's name (always plain functions)
+                which = node["ckind_which"]
+                self.rt.node_specs.setdefault("ck" + which, node)
+                func = {"lambda": lambda: closures.LAM[which], "method": lambda: closures.make_method(which), "names": lambda: closures.make_by_global_name(which)}[node["ckind"]]()
+                return self._make_fn(node, func, False)
             if "salt" in node:
                 tag = node["salt_base"] + ":" + repr(node["salt"])
                 self.rt.node_specs.setdefault(tag, node)
@@ -99,6 +106,14 @@ class Compiler:
                 f"def {fname}({_sig(params)}):\n    return {fname}__inner({', '.join(p['name'] + '=' + p['name'] for p in params)})\n"
             )
             func = self._func(("fnw", bkey, fname), src, fname)
+            return self._make_fn(node, func, deco)
+        if gen and node.get("gen_wrapped"):
+            # a PLAIN function that returns a generator object (a helper's generator handed through, a decorated generator function)
+            src = (
+                f"def {fname}__inner({_sig(params)}):\n    _uid = 'uid:{bkey}'\n    yield from rt.gen_body('{bkey}', {_argdict(params)})\n"
+                f"def {fname}({_sig(params)}):\n    return {fname}__inner({', '.join(p['name'] + '=' + p['name'] for p in params)})\n"
+            )
+            func = self._func(("fngw", bkey, fname), src, fname)
             return self._make_fn(node, func, deco)
         if gen:
             if is_async:
